@@ -229,6 +229,54 @@ Theorem C13_max_min_mixed_partial :
 Proof. exact extremum_list_mixed_partial. Qed.
 Print Assumptions C13_max_min_mixed_partial.
 
+(* the same two statements for an Array-of-Hashes and for a hash of hashes whose
+   named attribute (present, absent, repeated or null) mixes ints with floats *)
+Theorem C13_max_min_mixed_selects_attr :
+  forall lit re_search node_str cmp invert attr i els x,
+    cmp = MGt \/ cmp = MLt ->
+    node_is_aoh true (NSeq i els) = true ->
+    (forall v c, In (Some v, c) (map (aoh_member node_str attr x) (enumerate els)) -> mixed_num v) ->
+    exists res,
+      extremum lit re_search node_str cmp invert [attr] (NSeq i els) x = Ok res /\
+      forall c, In c res <-> mixed_selected cmp invert (map (aoh_member node_str attr x) (enumerate els)) c.
+Proof. exact extremum_aoh_mixed. Qed.
+Print Assumptions C13_max_min_mixed_selects_attr.
+
+Theorem C13_max_min_mixed_selects_hoh :
+  forall lit re_search node_str cmp invert attr i kvs x,
+    cmp = MGt \/ cmp = MLt ->
+    forallb (fun kv => is_map (snd kv)) kvs = true ->
+    (forall v c, In (Some v, c) (map (hoh_member node_str attr x) kvs) -> mixed_num v) ->
+    exists res,
+      extremum lit re_search node_str cmp invert [attr] (NMap i kvs) x = Ok res /\
+      forall c, In c res <-> mixed_selected cmp invert (map (hoh_member node_str attr x) kvs) c.
+Proof. exact extremum_hoh_mixed. Qed.
+Print Assumptions C13_max_min_mixed_selects_hoh.
+
+Theorem C13_max_min_mixed_attr_partial :
+  forall lit re_search node_str cmp invert attr i els x,
+    cmp = MGt \/ cmp = MLt ->
+    node_is_aoh true (NSeq i els) = true ->
+    (forall v c, In (Some v, c) (map (aoh_member node_str attr x) (enumerate els)) -> mixed_num v) ->
+    no_cross_equal (map (aoh_member node_str attr x) (enumerate els)) = true ->
+    exists res,
+      extremum lit re_search node_str cmp invert [attr] (NSeq i els) x = Ok res /\
+      forall c, In c res <-> selected cmp invert (map (aoh_member node_str attr x) (enumerate els)) c.
+Proof. exact extremum_aoh_mixed_partial. Qed.
+Print Assumptions C13_max_min_mixed_attr_partial.
+
+Theorem C13_max_min_mixed_hoh_partial :
+  forall lit re_search node_str cmp invert attr i kvs x,
+    cmp = MGt \/ cmp = MLt ->
+    forallb (fun kv => is_map (snd kv)) kvs = true ->
+    (forall v c, In (Some v, c) (map (hoh_member node_str attr x) kvs) -> mixed_num v) ->
+    no_cross_equal (map (hoh_member node_str attr x) kvs) = true ->
+    exists res,
+      extremum lit re_search node_str cmp invert [attr] (NMap i kvs) x = Ok res /\
+      forall c, In c res <-> selected cmp invert (map (hoh_member node_str attr x) kvs) c.
+Proof. exact extremum_hoh_mixed_partial. Qed.
+Print Assumptions C13_max_min_mixed_hoh_partial.
+
 (* ... and not without it: x: [5, 5.0] -- both members are greatest, max()
    yields only the first *)
 Theorem C13_max_min_mixed_refuted :
@@ -727,6 +775,25 @@ Example C13_ex_mixed :
   omap (map c_node) (kw_min ex_lit ex_re ex_str false [] (NSeq (mkinfo 2 None true None) ex_mixed) ex_ctx) =
     Ok [AtLoc [RKey (PStr "x"); RIdx 5]].
 Proof. vm_compute. repeat split; reflexivity. Qed.
+(* x: [{p: 2}, {q: 1}, {p: 2.0}, {p: null}, {p: 2}] by p: the hypotheses of C13_max_min_mixed_selects_attr hold;
+   max(p) yields the first record and the last (the int 2 twice), not the record with 2.0 *)
+Definition ex_mixed_aoh : list node :=
+  [mp 31 [(lf 13 (PStr "p"), lf 14 (PInt 2))]; mp 32 [(lf 19 (PStr "q"), lf 20 (PInt 1))];
+   mp 33 [(lf 13 (PStr "p"), lf 34 (PFloat 2 "2.0"))]; mp 35 [(lf 13 (PStr "p"), lf 4 PNone)];
+   mp 36 [(lf 13 (PStr "p"), lf 14 (PInt 2))]].
+Example C13_ex_mixed_aoh :
+  node_is_aoh true (NSeq (mkinfo 30 None true None) ex_mixed_aoh) = true /\
+  (forall v c, In (Some v, c) (map (aoh_member ex_str "p" ex_ctx) (enumerate ex_mixed_aoh)) -> mixed_num v) /\
+  omap (map c_node) (kw_max ex_lit ex_re ex_str false ["p"] (NSeq (mkinfo 30 None true None) ex_mixed_aoh) ex_ctx) =
+    Ok [AtLoc [RKey (PStr "x"); RIdx 0]; AtLoc [RKey (PStr "x"); RIdx 4]].
+Proof.
+  split; [reflexivity|]. split; [|vm_compute; reflexivity]. intros v c H. cbv in H.
+  repeat (destruct H as [H|H];
+          [first [discriminate H |
+                  inversion H; subst;
+                  first [left; eexists; reflexivity | right; eexists; eexists; split; [reflexivity|vm_compute; reflexivity]]]|]).
+  contradiction.
+Qed.
 (* x: [1, 2.5, 2, 2.5]: no int equals a float -- the guard of C13_max_min_mixed_partial holds *)
 Example C13_ex_mixed_guard :
   no_cross_equal (map (list_member ex_str ex_ctx)
